@@ -168,7 +168,8 @@ class TplGen:
         prefix = ''
         if up:
             prefix = '../' * up
-        elif r.random() < 0.12:
+        elif r.random() < 0.12 or body[:1].isdigit() or body[:1] in '-+':
+            # (a leading digit would read as a number literal in argument position)
             prefix = r.choice(['this.', './', 'this/'])
         return prefix + body
 
